@@ -1512,7 +1512,8 @@ def run(ck):
     if quick:
         rplans = [(HIST_LEAVES[(seed + 2) % len(HIST_LEAVES)], ["add", "cp"], 2, False), (HIST_LEAVES[(seed + 5) % len(HIST_LEAVES)], ["add", "cp"], 2, False), (L2[seed % len(L2)], ["add", "cp"], 2, True)]
     else:
-        rplans = [(lv, ["add", "cp", "comp"], 2, True) for lv in HIST_LEAVES] + [(lv, ["add", "cp"], 3, False) for lv in L2]
+        rplans = [(lv, ["add", "cp"], 2, True) for lv in HIST_LEAVES] + [(HIST_LEAVES[seed % len(HIST_LEAVES)], ["add", "cp", "comp"], 2, False)]
+        rplans += [(L2[(seed + i) % len(L2)], ["add", "cp"], 3, False) for i in range(2)]
     rcases = []
     for i, (lv, builders, depth, full) in enumerate(rplans):
         n, d = hnd[(seed + i) % len(hnd)]
@@ -1543,7 +1544,7 @@ def run(ck):
         "of a freshly built object of its own expression (itself checked against the documented formula); hyper-parameters alternate between two "
         "patterns along the history. A history is counted by its sequence of operation kinds, whether it re-uses a composite, and the observation mode. "
         "Data changes (evaluator redata, keys history/<family>/<attribute>/exposed-by:new-data-same-shape | new-data-other-shape | back-to-first-data): every history of <= 2 "
-        "operations (thorough: also <= 3 with two leaves, and CompositeCovariance) with 'every live object is given NEW data by pass_spatial_data' (different points of the same "
+        "operations (thorough: all six leaf sets, also <= 3 operations with two leaves, and CompositeCovariance on one leaf set) with 'every live object is given NEW data by pass_spatial_data' (different points of the same "
         "shape, or one point more; objects served in order of creation or composites first) inserted before every operation p and at the end, and 'every live object is given the "
         "FIRST data again' inserted at every later position q (quick, three leaves: q = p and q = end); later pass / bounds operations use the current data; after every operation "
         "every object must equal, bit for bit, a freshly built object of its expression given the CURRENT data, evaluated first at the hyper-parameters of the most recent "
